@@ -82,7 +82,7 @@ theorem brOK_of_block (cx : Cx) (fuel : Nat) (E : Nat) (s0 : St) (env : Src.Env)
         simp [patchNone, patchItem]
     -- entering at the start label
     have henter : ∀ r ib, Placed cx.rs r ib (patchNone E blk.items) → ∀ k b,
-        AgreeOn cx.N b (Src.trStmts fuel [] env (toSrcStmts body) k b).1 → ∀ m j, ExitsOK cx m j s0 env →
+        AgreeOn cx.N cx.Z b (Src.trStmts fuel [] env (toSrcStmts body) k b).1 → ∀ m j, ExitsOK cx m j s0 env →
         R2 cx m j (target cx.rs E) k →
         R2 cx m j ⟨r, ib⟩ (Src.trStmts fuel [] env (toSrcStmts body) k b).2 ∧ target cx.rs sL = ⟨r, ib⟩ := by
       intro r ib hp k b hag m j hex hend
